@@ -223,7 +223,7 @@ theorem round_dbl_eq_spec (R : Rounding) (d : Dbl) (p : Int)
   | nan => simp [roundCore, exactOf, floatUn]
   | inf n => simp [roundCore, exactOf, floatUn]
   | zero n =>
-    simp [roundCore, exactOf, floatUn, quantMag_zero, numDigits, retype, unscale_zero, argNeg, Dbl.isNeg]
+    simp [roundCore, exactOf, floatUn, quantMag_zero, numDigits, numDigits10, retype, unscale_zero, argNeg, Dbl.isNeg]
   | fin x =>
     have hd : ¬ numDigits (quantMag (if x > 0 then Mode.halfUp else Mode.halfDown) x p) > 28 := by
       simpa [trigF06p, exactOf] using hk
